@@ -136,6 +136,11 @@ type Hist struct {
 	Recode      int
 	AckBehind   int
 	AckBehindOK int
+	// RecodeExternal > 0: one call in RecodeExternal is built outside the node (see sendExternallyRecoded);
+	// ExternalDelivered keeps the delivered bytes
+	RecodeExternal    int
+	ExternalDelivered []*nom.AccountBlock
+	lastRoute         string
 
 	// ExtraSporkKey: a second key that may create / activate sporks in this world (the community spork address)
 	ExtraSporkKey types.Address
@@ -296,7 +301,19 @@ func (h *Hist) Submit(tpl *nom.AccountBlock, descr string) (*nom.AccountBlock, e
 		tpl.Data = MutatePacking(h.C, tpl.Data)
 		descr += " [call data re-encoded]"
 	}
-	b, err := h.A.Send(tpl)
+	var b *nom.AccountBlock
+	var err error
+	if h.RecodeExternal > 0 && types.IsEmbeddedAddress(tpl.ToAddress) && len(tpl.Data) >= 4 && tpl.BlockType != nom.BlockTypeUserReceive &&
+		h.C.Weighted("recodeExternal", h.RecodeExternal-1, 1) == 1 {
+		var done bool
+		if b, err, done = h.sendExternallyRecoded(tpl); done {
+			descr += " [built outside the node with re-encoded call data, delivered " + h.lastRoute + "]"
+		} else {
+			b, err = h.A.Send(tpl)
+		}
+	} else {
+		b, err = h.A.Send(tpl)
+	}
 	if err != nil {
 		h.Rejected++
 		h.C.Note("%s -> rejected: %v", descr, err)
@@ -319,6 +336,73 @@ func (h *Hist) Submit(tpl *nom.AccountBlock, descr string) (*nom.AccountBlock, e
 		h.OnAccepted(b, descr)
 	}
 	return b, nil
+}
+
+// sendExternallyRecoded: what a wallet that packs call data its own way does - the block is completed by the node's
+// own generator (plasma, heights, acknowledged momentum) but NOT inserted; its call data is then re-encoded
+// non-canonically (same selector, same meaning where it still decodes), the block hashed and signed over THOSE bytes
+// by the account's key, and delivered like any foreign block (peer wire format or the JSON-RPC publication call).
+// done=false: nothing was delivered (template not valid, re-encoding equals the canonical form).
+func (h *Hist) sendExternallyRecoded(tpl *nom.AccountBlock) (blk *nom.AccountBlock, err error, done bool) {
+	kp := h.W.Keys.ByAddr[tpl.Address]
+	if kp == nil {
+		return nil, nil, false
+	}
+	if tpl.BlockType == 0 {
+		tpl.BlockType = nom.BlockTypeUserSend
+	}
+	var tx *nom.AccountBlockTransaction
+	func() {
+		defer func() {
+			if r := recover(); r != nil {
+				err = fmt.Errorf("%v", r)
+			}
+		}()
+		tx, err = h.A.Sup.GenerateFromTemplate(tpl.Copy(), kp.Signer)
+	}()
+	if err != nil || tx == nil {
+		h.C.Class("externally-recoded-call: template not valid")
+		return nil, nil, false
+	}
+	b := tx.Block.Copy()
+	re := MutatePacking(h.C, b.Data)
+	if string(re) == string(b.Data) {
+		h.C.Class("externally-recoded-call: re-encoding equals the canonical form")
+		return nil, nil, false
+	}
+	b.Data = re
+	b.ChangesHash = types.ZeroHash
+	ResignBlock(b, kp)
+	var wire *nom.AccountBlock
+	h.lastRoute = "over the wire"
+	if h.C.Bool("recodeExternal.rpc") {
+		h.lastRoute = "over JSON-RPC"
+		if wire, err = ViaPublishJSON(h.A, b); err != nil {
+			return nil, err, true
+		}
+	} else if wb, werr := WireBlocks([]*nom.AccountBlock{b}); werr == nil {
+		wire = wb[0]
+	} else {
+		return nil, nil, false
+	}
+	h.ExternalDelivered = append(h.ExternalDelivered, b.Copy())
+	h.C.Class("externally-recoded-call-delivered")
+	ntx, aerr := h.A.Sup.ApplyBlock(wire)
+	if aerr != nil {
+		e := aerr.Error()
+		if len(e) > 50 {
+			e = e[:50]
+		}
+		h.C.Class("externally-recoded-call-refused: " + e)
+		return nil, aerr, true
+	}
+	h.A.LastBlockErr = nil
+	h.A.CreateAccountBlock(ntx)
+	if h.A.LastBlockErr != nil {
+		return nil, h.A.LastBlockErr, true
+	}
+	h.C.Class("externally-recoded-call-accepted")
+	return ntx.Block.Copy(), nil, true
 }
 
 // ActTransfer: a plain transfer with generated parties, token, amount, data.
